@@ -85,6 +85,13 @@ class AndersonAcceleration:
 
         # Apply actual acceleration (not in the first iteration, of any restart loop).
         mk = min(self._inner_iteration, self._depth)
+
+        # The mixing is ill-posed once the increment has reached machine precision
+        # relative to the iterate, i.e., the fixed point iteration has converged. The
+        # changes in increments then carry no significant digits. Do not accelerate.
+        if np.linalg.norm(fk) <= 1e2 * np.finfo(float).eps * np.linalg.norm(gk):
+            mk = 0
+
         if mk > 0:
             # Build matrices of changes
             col = (iteration - 1) % self._depth
